@@ -6,6 +6,7 @@ import (
 	"encoding/json"
 	"fmt"
 	"strings"
+	"sync"
 	"time"
 
 	"lcverif/common"
@@ -54,6 +55,7 @@ type Input struct {
 	Sub       string
 	SlotEq    bool      `json:"slot_eq"`
 	Use       []UseDep  `json:"use"`
+	UseOrder  int       `json:"use_order"` // 0: flag suffix default, 1: PMS order flag default suffix
 	Route     int       `json:"route"` // 0 depend.DecodeDependencies, 1 depend.NewDependencyAtom (no USE deps)
 	PVer      Ver       `json:"pver"`
 	PSlot     string    `json:"pslot"`
@@ -87,23 +89,42 @@ func (v Ver) String() string {
 	return s
 }
 
-// the USE dependency in the order the parser accepts: prefix flag suffix default
-func (u UseDep) String() string {
+// the USE dependency text.  order 0: prefix flag suffix default ("f=(+)", the only order the
+// parser accepted when this check was written); order 1: the PMS order "f(+)=" (used only if
+// the parser under test accepts it, see pmsOrderAccepted)
+func (u UseDep) Text(order int) string {
 	pre := []string{"", "-", "", "!", "", "!"}[u.Form]
 	suf := []string{"", "", "=", "=", "?", "?"}[u.Form]
 	def := []string{"", "(+)", "(-)"}[u.Def]
+	if order == 1 {
+		return pre + u.Flag + def + suf
+	}
 	return pre + u.Flag + suf + def
 }
 
-func useString(us []UseDep) string {
+func useString(us []UseDep, order int) string {
 	if len(us) == 0 {
 		return ""
 	}
 	parts := make([]string, len(us))
 	for i, u := range us {
-		parts[i] = u.String()
+		parts[i] = u.Text(order)
 	}
 	return "[" + strings.Join(parts, ",") + "]"
+}
+
+var pmsOrderOnce sync.Once
+var pmsOrderOK bool
+
+// does the parser under test accept "[flag(+)=]"?  (parsing is property C14's business; this
+// check only chooses among the spellings the parser takes)
+func pmsOrderAccepted() bool {
+	pmsOrderOnce.Do(func() {
+		defer func() { recover() }()
+		deps, err := depend.DecodeDependencies([]byte("c/p[f(+)=,g(-)?]"))
+		pmsOrderOK = err == nil && len(deps) == 1
+	})
+	return pmsOrderOK
 }
 
 func (in Input) DepString() string {
@@ -132,11 +153,11 @@ func (in Input) DepString() string {
 			s += "="
 		}
 	}
-	return s + useString(in.Use)
+	return s + useString(in.Use, in.UseOrder)
 }
 
 func (in Input) FlagsOnlyDepString() string {
-	return in.Cat + "/" + in.Name + useString(in.Use)
+	return in.Cat + "/" + in.Name + useString(in.Use, in.UseOrder)
 }
 
 func (in Input) PkgString() string {
